@@ -160,7 +160,26 @@ impl Storage {
             "Recovering from wal checkpoint {}",
             earliest_uncommited_wal_id
         );
-        let wal_files = writer.list(wal_dir).unwrap();
+        // Only `<id>.wal` files are segments. Anything else in the directory is the temporary file of
+        // a write that was interrupted before its rename and is discarded.
+        let wal_files: Vec<PathBuf> = writer
+            .list(wal_dir)
+            .unwrap()
+            .into_iter()
+            .filter(|path| {
+                let is_segment = path.extension().map(|e| e == "wal").unwrap_or(false)
+                    && path
+                        .file_stem()
+                        .and_then(|stem| stem.to_str())
+                        .map(|stem| stem.parse::<u64>().is_ok())
+                        .unwrap_or(false);
+                if !is_segment && !readonly {
+                    log::info!("Removing incomplete wal file {}", path.display());
+                    let _ = writer.delete(path);
+                }
+                is_segment
+            })
+            .collect();
         let num_wal_files = wal_files.len();
         log::info!("Found {} wal segments", wal_files.len());
 
